@@ -198,23 +198,22 @@ def nmName (es : List Ent) : Bytes :=
 def compName (c : Comp) : Bytes :=
   if c.flags / 2 % 2 = 1 then [46] else if c.flags / 4 % 2 = 1 then [46, 46] else c.data
 
+/-- reader state while joining SL components -/
+structure SlAcc where
+  out : Bytes := []
+  needSep : Bool := false
+  cont : Bool := false          -- previous component had CONTINUE
+
 /-- join SL components the way RRIP 4.1.3 prescribes: "/" between components, none after a continued piece,
 the root component is the leading "/" -/
-def slTarget (cs : List Comp) : Bytes := Id.run do
-  let mut out : Bytes := []
-  let mut needSep := false
-  let mut cont := false
-  for c in cs do
-    let isRoot := c.flags / 8 % 2 = 1
-    let sep : Bytes := if needSep && !cont then [47] else []
-    if isRoot then
-      out := out ++ sep ++ [47]
-      needSep := false
-    else
-      out := out ++ sep ++ compName c
-      needSep := true
-    cont := c.flags % 2 = 1
-  return out
+def slStep (a : SlAcc) (c : Comp) : SlAcc :=
+  let sep : Bytes := if a.needSep && !a.cont then [47] else []
+  if c.flags / 8 % 2 = 1 then { out := a.out ++ sep ++ [47], needSep := false, cont := c.flags % 2 = 1 }
+  else { out := a.out ++ sep ++ compName c, needSep := true, cont := c.flags % 2 = 1 }
+
+def slFold (cs : List Comp) : SlAcc := cs.foldl slStep {}
+
+def slTarget (cs : List Comp) : Bytes := (slFold cs).out
 
 def allComps (es : List Ent) : List Comp :=
   es.flatMap fun e => match e with
